@@ -24,10 +24,9 @@
    argument vector to "execvp failed" or a wait status, and [gotsig]; both are
    universally quantified.
 
-   FULL STATEMENT of the third clause, for reference (it is FALSE of the code
-   as shipped - defect D5 - and TRUE of the code with the NULL check of
-   findings/D5_find_step_null.diff; both facts are theorems below, and
-   C06_unresolvable_is_error_current follows whichever body step-exec.c has):
+   FULL STATEMENT of the third clause, for reference (it was FALSE of the code
+   as shipped - defect D5 - and is TRUE since fix 0771f90; C06_unresolvable_is_error
+   is about the body step-exec.c has now, two historical pins about the old one):
 
      forall cv trace name kern gotsig,
        let o := step_run cv trace name kern gotsig in
@@ -36,7 +35,9 @@
           o = exited, nothing executed, status <> 0, some diagnostic) /\
        (the command resolves but execvp fails ->
           o = exited, status <> 0, the child's diagnostic)                        *)
-From Robsd Require Import Exec.ArgvSpec Exec.ArgvProofs.
+From Robsd Require Import Conf.ConfDefs Conf.SchedDefs.
+From Robsd Require Import Exec.ArgvSpec Exec.ArgvProofs Exec.ArgvRun Exec.ArgvSignal Exec.SchedBridge.
+From RobsdGen Require Import Gen_Conf.
 From Coq Require Import String.
 Local Open Scope N_scope.
 
@@ -69,6 +70,54 @@ Theorem C06_argv_no_splitting : forall checked cv trace name argv,
              Forall (fun a => a <> []) argv.
 Proof. exact resolve_no_splitting. Qed.
 Print Assumptions C06_argv_no_splitting.
+
+(* "all configurations" = configuration FILES.  [SchedDefs.resolve] is robsd-exec on the text of a configuration
+   (the parser model of C08, the schedule model of C10); [benv]/[bsteps] are the lookup function and the step list
+   of the parsed configuration.  Exec/SchedBridge.v proves that the two runner models are one
+   (C10_one_runner), hence C06_argv_exact speaks about every accepted file: the vector robsd-exec hands to execvp
+   is the rendering of the first step of that name in the schedule of the mode (all five modes), nothing else.
+   Guard for robsd-regress only: the schedule renders without the rdomain counter (C10_one_runner_rdomain_refuted
+   is the witness outside). *)
+Theorem C06_argv_exact_parsed : forall E m text c tr name argv,
+  config_parse E (tables_of m) text = Accepted c ->
+  let c' := after_parse (tables_of m) c in
+  (schedule_ok (benv E m c' tr) (bsteps E m c' tr) \/ m <> ROBSD_REGRESS) ->
+  (SchedDefs.resolve E (tables_of m) text tr name = Some argv <->
+   schedule_ok (benv E m c' tr) (bsteps E m c' tr) /\
+   exists sd, first_named name (bsteps E m c' tr) sd /\ step_argv_of (benv E m c' tr) (command_of sd) argv).
+Proof. exact argv_exact_parsed. Qed.
+Print Assumptions C06_argv_exact_parsed.
+
+(* ... and the abstract view the other theorems quantify over can be taken to be [view_of] of the parsed
+   configuration: robsd-exec on the file IS ArgvDefs.resolve on that view (modes without pattern keywords) *)
+Theorem C06_view_of_parsed : forall E m text c tr name argv xs,
+  m <> ROBSD_REGRESS -> config_parse E (tables_of m) text = Accepted c ->
+  let c' := after_parse (tables_of m) c in
+  benv E m c' tr TRACE <> None ->
+  (SchedDefs.resolve E (tables_of m) text tr name = Some argv <->
+   ArgvDefs.resolve true (view_of E m c' tr xs) tr name = RArgv argv).
+Proof. exact bridge_view. Qed.
+Print Assumptions C06_view_of_parsed.
+
+(* the vector of a script step (every step of robsd, robsd-cross, robsd-ports, every fixed step and every test
+   of robsd-regress, the end step of canvas): sh -eu, -x exactly with the trace flag, the script path and the
+   step name rendered like any argument *)
+Theorem C06_script_argv_shape : forall cv trace sd p argv,
+  sd_cmd sd = Script p -> alookup (cv_vars cv) TRACE = None ->
+  (step_argv_of (env_of cv trace) (command_of sd) argv <->
+   exists p' n', renders (env_of cv trace) p p' /\ renders (env_of cv trace) (sd_name sd) n' /\
+                 argv = SH :: EU :: (if trace then [trace_on] else []) ++ filter nonempty [p'; n']).
+Proof. exact script_argv_shape. Qed.
+Print Assumptions C06_script_argv_shape.
+
+(* outside the guard of the shape theorem: a variable called trace (stored when ${trace} is evaluated while the
+   file is parsed, e.g. canvas-dir "${trace}/tmp") wins over the flag, -x is lost *)
+Theorem C06_trace_flag_shadowed :
+  let cv := mkcfg [(TRACE, [])] [] [mkstep [115] (Script [47; 115])] None in
+  resolve true cv true [115] = RArgv [SH; EU; [47; 115]; [115]]
+  /\ resolve true cv false [115] = RArgv [SH; EU; [47; 115]; [115]].
+Proof. exact trace_shadowed. Qed.
+Print Assumptions C06_trace_flag_shadowed.
 
 (* robsd-hook executes a vector exactly when every -v argument is name=value
    with a name that is not a configuration keyword, a non-empty hook is
@@ -106,71 +155,96 @@ Theorem C06_exit_faithful :
 Proof. exact exit_faithful_all. Qed.
 Print Assumptions C06_exit_faithful.
 
-(* the runner's own exit status is that decoding of the wait status of the
-   command it executed (execvp failing in the child counts as the child's
-   err(1, ...)), with a diagnostic whenever it is not 0 *)
-Theorem C06_runner_exit : forall checked cv trace name kern g argv,
-  resolve checked cv trace name = RArgv argv ->
-  exists d, run_with checked cv trace name kern g =
-            Exited (mkrun (Some argv) (exit_spec (child_status (kern argv)) g) d) /\
-            (exit_spec (child_status (kern argv)) g <> 0 -> d <> []) /\
-            (kern argv = KNoExec -> In DExec d).
-Proof. exact run_exit. Qed.
+(* THE RUNNER exits 0 if and only if the command exited 0 - stated for the whole of robsd-exec, any outcome of
+   the resolution, with the exact guard: the fork handshake of step_fork completed in time and no SIGALRM was
+   caught.  Every non-zero exit comes with a diagnostic, exit 0 is silent.  ([kernel_ok]: execvp fails or
+   waitpid yields "exited with 0..255" / "killed by signal 1..126".) *)
+Theorem C06_runner_exit_zero_iff : forall cv trace name kern g hs,
+  (forall argv, kernel_ok (kern argv)) ->
+  exists r, run_fork true cv trace name kern g hs = Exited r /\
+    (hs = HsOk -> g <> sigalrm ->
+       (rr_exit r = 0 <-> exists argv, resolve true cv trace name = RArgv argv /\ kern argv = KWait (w_exited 0))) /\
+    (rr_exit r = 0 -> hs = HsOk /\ g <> sigalrm /\ exists argv, resolve true cv trace name = RArgv argv) /\
+    (rr_exit r <> 0 -> rr_diag r <> []).
+Proof. exact run_fork_zero_iff. Qed.
+Print Assumptions C06_runner_exit_zero_iff.
+
+(* the same for the run proper (handshake in time), with "exit 0 is silent" *)
+Theorem C06_runner_exit : forall cv trace name kern g,
+  g <> sigalrm -> (forall argv, kernel_ok (kern argv)) ->
+  exists r, run_with true cv trace name kern g = Exited r /\
+    (rr_exit r = 0 <-> exists argv, resolve true cv trace name = RArgv argv /\ kern argv = KWait (w_exited 0)) /\
+    (rr_exit r = 0 -> rr_diag r = []) /\ (rr_exit r <> 0 -> rr_diag r <> []).
+Proof. exact run_zero_iff. Qed.
 Print Assumptions C06_runner_exit.
+
+(* the hypothesis g <> SIGALRM discharged: gotsig is written by sighandler only, which is installed for SIGTERM
+   and - only when step_timeout() > 0 - for SIGALRM.  In C07's transition system of the runner (Exec/KillDefs.v:
+   every interleaving of runner steps, signal arrivals and exits of group members) gotsig is never SIGALRM
+   outside robsd-regress, nor in robsd-regress without a positive regress-timeout. *)
+Theorem C06_alarm_only_when_armed : forall m regress_timeout tr t s,
+  KillDefs.exec tr (KillDefs.init_tree t (step_timeout m regress_timeout)) = Some s ->
+  m <> MRegress \/ regress_timeout <= 0 ->
+  KillDefs.s_gotsig s <> sigalrm.
+Proof. exact alarm_only_when_armed. Qed.
+Print Assumptions C06_alarm_only_when_armed.
+
+(* C07's hand-written decoding of the wait status is the function C06 is about *)
+Theorem C06_exitstatus_models_agree : forall st g, 0 <= st -> KillDefs.exitstatus st g = exit_spec st g.
+Proof. exact kill_exitstatus_is_exit_spec. Qed.
+Print Assumptions C06_exitstatus_models_agree.
+
+(* EXCEPTION 1 (exact, by design of regress-timeout): with a SIGALRM caught the status is 124 whatever the
+   command did - also when it had exited 0 at the moment the alarm went off *)
+Theorem C06_exit_zero_iff_refuted_alarm : forall cv trace name kern argv,
+  resolve true cv trace name = RArgv argv -> kern argv = KWait (w_exited 0) ->
+  exists d, run_with true cv trace name kern sigalrm = Exited (mkrun (Some argv) 124 d).
+Proof. exact alarm_masks_exit_zero. Qed.
+Print Assumptions C06_exit_zero_iff_refuted_alarm.
+
+(* EXCEPTION 2 (REFUTES the literal statement; replayed on the real robsd-exec, findings/C06_fork_handshake.md):
+   the child does not reach setsid() within the second step_fork waits for it - "process group failure"; the
+   command runs all the same and exits 0; the runner exits 1 *)
+Theorem C06_exit_zero_iff_refuted_handshake : forall cv trace name kern g argv,
+  resolve true cv trace name = RArgv argv -> kern argv = KWait (w_exited 0) ->
+  run_fork true cv trace name kern g HsLate = Exited (mkrun (Some argv) 1 [DGroupFail]).
+Proof. exact handshake_masks_exit_zero. Qed.
+Print Assumptions C06_exit_zero_iff_refuted_handshake.
+
+(* on that path the status is never 0, the diagnostic is always there, a non-zero code still passes through *)
+Theorem C06_handshake_late_nonzero : forall cv trace name kern g,
+  exists r, run_fork true cv trace name kern g HsLate = Exited r /\ rr_exit r <> 0 /\ rr_diag r <> [] /\
+    (forall argv, resolve true cv trace name = RArgv argv ->
+       rr_argv r = Some argv /\ In DGroupFail (rr_diag r) /\
+       rr_exit r = (if exit_spec (child_status (kern argv)) 0 =? 0 then 1 else exit_spec (child_status (kern argv)) 0)).
+Proof. exact handshake_late_nonzero. Qed.
+Print Assumptions C06_handshake_late_nonzero.
+
+(* a command of which nothing is left after interpolation (every element renders empty; canvas
+   command { "${trace}" }): the vector is empty, the child calls execvp(NULL, ...), which cannot run anything -
+   the runner reports a non-zero status with a diagnostic.  This is the case the oracle spec_ok_step demands
+   failure for (ExpRun []); theorem and oracle now agree (C06_oracle_accepts_model). *)
+Theorem C06_empty_argv : forall cv trace name kern g,
+  resolve true cv trace name = RArgv [] -> null_exec_fails kern ->
+  exists r, run_with true cv trace name kern g = Exited r /\ rr_exit r <> 0 /\ rr_diag r <> [].
+Proof. exact empty_argv. Qed.
+Print Assumptions C06_empty_argv.
 
 (* ---- unresolvable is an error, never a crash ---- *)
 
-(* REFUTED for find_step as shipped (defect D5): canvas
-   step "s" command { "sh" "-c" "kill -9 $$" } - the lone '$' does not
-   interpolate, config_get_steps returns NULL, find_step reads the length in
-   front of the null pointer.  Replayed on the real binary by the check
-   (signature exec-crash-on-uninterpolatable-command). *)
+(* HISTORICAL PINS, not results about the current tree: the two theorems below are about [run_with false], the
+   body find_step had before fix 0771f90 (no NULL check on a schedule that failed to interpolate - defect D5).
+   The translator tells which body the source has ([find_step_null_checked], C06_unresolvable_is_error below
+   stops compiling if the check is removed); were it removed again, these say what happens then. *)
 Theorem C06_unresolvable_is_error_refuted :
   exists cv trace name kern g, run_with false cv trace name kern g = Crash.
 Proof. exact unresolvable_shipped_refuted. Qed.
 Print Assumptions C06_unresolvable_is_error_refuted.
 
-(* ... and that is the only way it crashes: exactly when some command of the
-   schedule (of ANY step, not only the requested one) does not interpolate *)
 Theorem C06_shipped_crash_iff : forall cv trace name kern g,
   run_with false cv trace name kern g = Crash <-> ~ schedule_ok (env_of cv trace) (cv_steps cv).
 Proof. exact shipped_crash_iff. Qed.
 Print Assumptions C06_shipped_crash_iff.
-
-(* PARTIAL, the exact guard: with a schedule that interpolates, the shipped
-   runner satisfies the full statement *)
-Theorem C06_unresolvable_is_error_partial : forall cv trace name kern g,
-  schedule_ok (env_of cv trace) (cv_steps cv) ->
-  let o := run_with false cv trace name kern g in
-  o <> Crash /\
-  ((~ known_step name (cv_steps cv) \/ ~ schedule_ok (env_of cv trace) (cv_steps cv)) ->
-     exists r, o = Exited r /\ rr_argv r = None /\ rr_exit r <> 0 /\ rr_diag r <> []) /\
-  (forall argv, resolve false cv trace name = RArgv argv -> kern argv = KNoExec ->
-     exists r, o = Exited r /\ rr_exit r <> 0 /\ In DExec (rr_diag r)).
-Proof. exact (fun cv trace name kern g H => unresolvable_guarded false cv trace name kern g (or_intror H)). Qed.
-Print Assumptions C06_unresolvable_is_error_partial.
-
-(* FULL statement, for find_step with the NULL check *)
-Theorem C06_unresolvable_is_error_fixed : unresolvable_is_error true.
-Proof. exact unresolvable_checked. Qed.
-Print Assumptions C06_unresolvable_is_error_fixed.
-
-(* the code as it is now: the translator says which body find_step has; the
-   model in force ([step_run]) is that variant, and it either has the witness
-   or satisfies the full statement.  This theorem and the next one keep
-   compiling when the NULL check is applied; the full statement then holds of
-   [step_run] without a guard. *)
-Theorem C06_unresolvable_is_error_current :
-  (find_step_null_checked = false /\
-   exists cv trace name kern g, step_run cv trace name kern g = Crash) \/
-  (find_step_null_checked = true /\ unresolvable_is_error find_step_null_checked).
-Proof. exact current_unresolvable. Qed.
-Print Assumptions C06_unresolvable_is_error_current.
-
-Theorem C06_unresolvable_is_error_when_checked :
-  find_step_null_checked = true -> unresolvable_is_error find_step_null_checked.
-Proof. exact unresolvable_if_checked. Qed.
-Print Assumptions C06_unresolvable_is_error_when_checked.
 
 (* ---- hook ---- *)
 
@@ -183,17 +257,21 @@ Theorem C06_unresolvable_is_error : unresolvable_is_error find_step_null_checked
 Proof. exact (unresolvable_if_checked eq_refl). Qed.
 Print Assumptions C06_unresolvable_is_error.
 
-(* no hook configured (or an empty one): robsd-hook never executes anything;
-   it exits 0 without a word when the -v arguments are well formed and 1 with
-   a diagnostic about the offending -v argument otherwise *)
-Theorem C06_hook_noop_when_unset : forall m cv vs execok,
-  hook_unset cv ->
-  (forall argv, hook_run m cv vs execok <> HExec argv) /\
-  ((exists extra, Forall2 (var_rel (reserved_keywords m)) vs extra) -> hook_run m cv vs execok = HNoop) /\
-  (~ (exists extra, Forall2 (var_rel (reserved_keywords m)) vs extra) ->
-     exists d, hook_run m cv vs execok = HFail 1 d).
-Proof. exact hook_noop. Qed.
-Print Assumptions C06_hook_noop_when_unset.
+(* the three outcomes of robsd-hook, each characterised by the specification relations (no reference to the
+   control flow of the model): it does nothing - exit 0, silent - exactly when the -v arguments are well formed
+   and no hook (or an empty one) is configured; it fails - always status 1, one diagnostic - exactly when a -v
+   argument is malformed or names a keyword, or an element of the hook does not render, or execvp fails; in the
+   remaining case it becomes the command (C06_hook_argv_exact) *)
+Theorem C06_hook_outcomes : forall m cv vs execok,
+  (hook_run m cv vs execok = HNoop <-> vars_ok m vs /\ hook_unset cv) /\
+  ((exists e d, hook_run m cv vs execok = HFail e d) <->
+     ~ vars_ok m vs \/
+     (exists extra l, Forall2 (var_rel (reserved_keywords m)) vs extra /\ cv_hook cv = Some l /\ l <> [] /\
+        (~ Forall (renderable (alookup (env_list cv extra false))) l \/
+         exists argv, hook_argv_of (alookup (env_list cv extra false)) l argv /\ execok argv = false))) /\
+  (forall e d, hook_run m cv vs execok = HFail e d -> e = 1%Z).
+Proof. exact hook_outcomes. Qed.
+Print Assumptions C06_hook_outcomes.
 
 (* ---- tie to the sources and to the oracle ---- *)
 
@@ -223,6 +301,26 @@ Theorem C06_oracle_reflects_spec :
      end).
 Proof. exact (conj expect_step_spec expect_hook_model). Qed.
 Print Assumptions C06_oracle_reflects_spec.
+
+(* the hook oracle's expectation, against the specification relations themselves *)
+Theorem C06_oracle_reflects_spec_hook : forall m cv vs,
+  (forall argv, expect_hook m cv vs = HxRun argv <->
+     exists extra l, Forall2 (var_rel (reserved_keywords m)) vs extra /\ cv_hook cv = Some l /\ l <> [] /\
+                     hook_argv_of (alookup (env_list cv extra false)) l argv) /\
+  (expect_hook m cv vs = HxNoop <-> vars_ok m vs /\ hook_unset cv).
+Proof. exact (fun m cv vs => conj (expect_hook_spec m cv vs) (expect_hook_noop_spec m cv vs)). Qed.
+Print Assumptions C06_oracle_reflects_spec_hook.
+
+(* the oracle the harness applies to what robsd-exec did accepts every run of the MODEL: whatever the
+   configuration view, the name, the kernel function and gotsig, as long as they are what the harness arranged
+   ([arranged kx]: the probe cannot be executed / exits with code c / dies from signal s / outlives the timeout).
+   [obs_of]: the argv dump exists only when a command was started. *)
+Theorem C06_oracle_accepts_model : forall cv trace name kern g kx,
+  null_exec_fails kern ->
+  (forall argv, resolve true cv trace name = RArgv argv -> argv <> [] -> arranged kx kern g argv) ->
+  exists r, run_with true cv trace name kern g = Exited r /\ spec_ok_step cv trace name kx (obs_of kern r) = true.
+Proof. exact oracle_accepts_model. Qed.
+Print Assumptions C06_oracle_accepts_model.
 
 (* ---- non-vacuity ---- *)
 Local Open Scope string_scope.
